@@ -118,7 +118,7 @@ impl HasParent<&TrueName> for Class {
 
 impl HasParent<&Name> for Class {
     fn has_parent(&self, name: &Name, ctx: &Context, pos: Position) -> TypeResult<bool> {
-        if name.contains(&TrueName::from(&self.name)) || name == &Name::any() {
+        if name.as_direct().contains(&self.name) || name == &Name::any() {
             return Ok(true);
         }
 
